@@ -125,7 +125,7 @@ def replay(payload):
         from ._r import replay_whole_runs
         from ..acceptors_r import acc_C02
         return replay_whole_runs(payload, [acc_C02])
-    if payload.get("engine") == "F" and payload.get("grid") not in ("deep_one_sided_books", "heap_layouts"):
+    if payload.get("engine") == "F" and payload.get("grid") not in ("deep_one_sided_books", "heap_layouts", "books_with_ties"):
         from ..common import Violation, Counter
         try:
             comparator_fn(tuple(payload["case"]), Counter())
